@@ -235,8 +235,22 @@ func runC20(e *Env) {
 		e.Violate("none-after-inactive", "idle-events-after-inactive", "%d idle events delivered after the inactive event had passed the handler(s)", afterInactive)
 	}
 	if closed && end == simrt.EndHorizon {
-		e.Inconclusive = ""
-		e.Violate("timer-released", "timer-live-after-inactive", "30 idle periods after Close the run still produces timer events: the idle timer was not released")
+		// The run was cut by the fake-time horizon. That is a leaked timer only if timer callbacks still fire well
+		// after the inactive event has passed the handlers (the property's own condition). If inactive has not been
+		// delivered yet - the closing task can be starved for a long fake time by stall decisions - the run is
+		// inconclusive, not a violation.
+		late := 0
+		if in := post.Of("inactive"); len(in) > 0 && in[0].End != 0 {
+			for _, t := range tasks {
+				if t.IsTimer && t.FiredAt > in[0].EndAt+3*d {
+					late++
+				}
+			}
+		}
+		if late >= 2 {
+			e.Inconclusive = ""
+			e.Violate("timer-released", "timer-live-after-inactive", "%d timer callbacks fired more than 3 idle periods after the inactive event had passed the handlers: the idle timer was not released", late)
+		}
 	}
 	// liveness: during the final silence (no stalls, no panic, channel open) events keep coming
 	closedEarly := false
